@@ -15,7 +15,8 @@ import c05ref as R  # noqa: E402  (python reference used by the failing-input se
 
 GROUPS = ["Val", "D12", "D3dist", "D3p01", "D3p02", "D3p12", "F", "W",
           "Dec12", "Dec3full", "Dec3p01", "Dec3p02", "Dec3p12", "Dec3dist", "TabP01pp", "TabDistppp", "TabDistnnn"]
-PROPS_QUICK = ["TfelVerif.C05.Props", "TfelVerif.C05.PropsDeriv", "TfelVerif.C05.PropsWrap", "TfelVerif.C05.PropsDec"]
+PROPS_QUICK = ["TfelVerif.C05.Props", "TfelVerif.C05.PropsDeriv", "TfelVerif.C05.PropsWrap", "TfelVerif.C05.PropsDec",
+               "TfelVerif.C05.PropsDecTa", "TfelVerif.C05.PropsDecTb", "TfelVerif.C05.PropsDecTc"]
 PROPS_THOROUGH = PROPS_QUICK + ["TfelVerif.C05.PropsDecX"]
 SIZE = {1: 3, 2: 4, 3: 6}
 
